@@ -23,7 +23,38 @@ use serde::{Deserialize, Serialize};
 use vcore::proptest::prelude::*;
 use vcore::{Cx, Fail};
 
-pub type Ch = Vec<u64>;
+/// The channel type under test: a `Vec<u64>` whose `with_capacity` -- the one `Channel` method the receiver is
+/// documented to call OUTSIDE its lock ("re-allocate our next buffer outside of the lock") -- is a scheduling
+/// point: an armed hook runs there, standing for a sender on another thread that gets in at that instant.
+#[derive(Debug, Clone, PartialEq, Default)]
+pub struct Ch(pub Vec<u64>);
+
+thread_local! {
+    static ALLOC_HOOK: std::cell::RefCell<Option<Box<dyn FnOnce()>>> = const { std::cell::RefCell::new(None) };
+}
+
+impl emit_batcher::Channel for Ch {
+    type Item = u64;
+    fn new() -> Self {
+        Ch(Vec::new())
+    }
+    fn with_capacity(capacity: usize) -> Self {
+        let hook = ALLOC_HOOK.with(|h| h.borrow_mut().take());
+        if let Some(hook) = hook {
+            hook();
+        }
+        Ch(Vec::with_capacity(capacity.min(1 << 16)))
+    }
+    fn push(&mut self, item: u64) {
+        self.0.push(item)
+    }
+    fn len(&self) -> usize {
+        self.0.len()
+    }
+    fn clear(&mut self) {
+        self.0.clear()
+    }
+}
 
 /// "Bounded" in C08 is judged against generous absolute bounds, NOT against the current constants of
 /// `emit_batcher::bounded` (10 retries, 10 s, 500 ms): the statement does not fix those, and a
@@ -85,6 +116,9 @@ pub enum Op {
     /// Self-reported metrics: sample the channel's own metric source with a sampler that sends a fresh item into
     /// the SAME channel when it is handed the `at`-th metric (7 = on every metric).
     SampleSend { at: u8 },
+    /// Arm the allocation hook: the next time the receiver allocates a buffer (`Channel::with_capacity`, called
+    /// outside its lock) a sender on another thread gets a plain `send` in at exactly that instant.
+    ArmAllocSend,
 }
 
 #[derive(Serialize, Deserialize, Debug, Clone, Copy, PartialEq)]
@@ -132,6 +166,8 @@ pub enum Ev {
     FlushDone { id: u32, ok: bool, inf: bool },
     EmptyReq { id: u32 },
     EmptyDone { id: u32, on_take: bool },
+    /// the receiver allocates a buffer (`Channel::with_capacity`) and the armed hook is about to send
+    AllocPoint,
     BatchCall(Vec<u64>),
     ClosurePanic,
     BatchRet(Ret),
@@ -160,6 +196,10 @@ struct World {
     cb_registered: u32,
     cb_fired: u32,
     registering: bool,
+    /// the armed allocation hook could not complete its send within its patience: the receiver called
+    /// `with_capacity` with its lock held (legal, if unusual); the case is not judged
+    alloc_blocked: bool,
+    alloc_fired: u32,
 }
 
 type W = Arc<Mutex<World>>;
@@ -184,7 +224,7 @@ impl Future for BatchFut {
                 match ret {
                     Ret::Ok => Poll::Ready(Ok(())),
                     Ret::Err => Poll::Ready(Err(BatchError::no_retry(ScriptErr))),
-                    Ret::Retry(rem) => Poll::Ready(Err(BatchError::retry(ScriptErr, rem))),
+                    Ret::Retry(rem) => Poll::Ready(Err(BatchError::retry(ScriptErr, Ch(rem)))),
                     Ret::Panic => panic!("scripted panic in batch future"),
                 }
             }
@@ -243,6 +283,8 @@ struct Task {
 }
 
 pub struct Trace {
+    pub alloc_fired: u32,
+    pub alloc_blocked: bool,
     pub log: Vec<Ev>,
     pub cap: usize,
     pub stuck: Option<String>,
@@ -413,6 +455,7 @@ fn run_inner(case: &Case) -> Trace {
     // the virtual clock judges the real delay values: hook H1 must be neutral here
     emit_batcher::verif::set_delay_divisor(1);
     let cap = (case.cap as usize).max(1);
+    ALLOC_HOOK.with(|h| *h.borrow_mut() = None);
     let (sender, receiver) = emit_batcher::bounded::<Ch>(cap);
     let w: W = Arc::new(Mutex::new(World {
         log: Vec::with_capacity(case.ops.len() * 4 + 16),
@@ -426,6 +469,8 @@ fn run_inner(case: &Case) -> Trace {
         cb_registered: 0,
         cb_fired: 0,
         registering: false,
+        alloc_blocked: false,
+        alloc_fired: 0,
     }));
 
     let wait = {
@@ -443,6 +488,7 @@ fn run_inner(case: &Case) -> Trace {
         move |batch: Ch| {
             let slot = Arc::new(Slot { v: Mutex::new(None) });
             let mut g = w.lock().unwrap();
+            let batch = batch.0;
             g.log.push(Ev::BatchCall(batch.clone()));
             if g.arm || g.always_arm {
                 g.arm = false;
@@ -647,6 +693,36 @@ fn run_inner(case: &Case) -> Trace {
                     s.metric_source().sample_metrics(Reenter(&s, &w, *at, std::cell::Cell::new(0)));
                 }
             }
+            Op::ArmAllocSend => {
+                let w2 = w.clone();
+                let hook: Box<dyn FnOnce()> = Box::new(move || {
+                    let Some(s) = w2.lock().unwrap().sender.clone() else { return };
+                    let item = {
+                        let mut g = w2.lock().unwrap();
+                        g.next_item += 1;
+                        g.next_item
+                    };
+                    // on another thread, with bounded patience: if the receiver holds its lock here (it does not
+                    // today, and says so) the send simply waits for it -- then this case is not judged
+                    w2.lock().unwrap().log.push(Ev::AllocPoint);
+                    let (tx, rx) = std::sync::mpsc::channel();
+                    std::thread::spawn(move || {
+                        s.send(item);
+                        // give the handle back BEFORE reporting: the main thread may drop "the last" sender next
+                        drop(s);
+                        let _ = tx.send(());
+                    });
+                    match rx.recv_timeout(Duration::from_secs(2)) {
+                        Ok(()) => {
+                            let mut g = w2.lock().unwrap();
+                            g.alloc_fired += 1;
+                            g.log.push(Ev::Accepted { item, via: Via::Send, waited: false });
+                        }
+                        Err(_) => w2.lock().unwrap().alloc_blocked = true,
+                    }
+                });
+                ALLOC_HOOK.with(|h| *h.borrow_mut() = Some(hook));
+            }
             Op::DropSender => {
                 for t in tasks.iter_mut() {
                     if t.fut.take().is_some() {
@@ -746,8 +822,12 @@ fn run_inner(case: &Case) -> Trace {
     drop(exec);
     drop(tasks);
     drop(_keep_world_when_panicking);
-    let log = std::mem::take(&mut w.lock().unwrap().log);
-    Trace { log, cap, stuck, exec_done }
+    ALLOC_HOOK.with(|h| *h.borrow_mut() = None);
+    let (log, alloc_blocked, alloc_fired) = {
+        let mut g = w.lock().unwrap();
+        (std::mem::take(&mut g.log), g.alloc_blocked, g.alloc_fired)
+    };
+    Trace { alloc_fired, alloc_blocked, log, cap, stuck, exec_done }
 }
 
 // ---------------------------------------------------------------------------------------------
@@ -939,6 +1019,22 @@ pub fn judge(trace: &Trace, ops: &[Op]) -> Verdict {
                 // the first on-take callback of a hand-off marks the swap: everything accepted so far
                 // has left the pending queue, later sends (also from callbacks) go to the fresh one
                 if *on_take && !take_marked {
+                    take_marked = true;
+                    taken.extend(queue.drain(..));
+                }
+            }
+            Ev::AllocPoint => {
+                // Where the allocation sits relative to the hand-off is the receiver's business. If the very next
+                // thing it does is to hand the processor exactly what is pending now (and it is not a retry),
+                // the swap has already happened and the send that follows goes to the fresh queue; if it goes
+                // on to wait, or hands over something else, nothing was taken here.
+                let new_batch = !cur.as_ref().map_or(false, |c| c.awaiting.is_some());
+                let next_is_wait_first = trace.log[pos + 1..].iter().find_map(|e| match e {
+                    Ev::BatchCall(_) => Some(false),
+                    Ev::WaitReq(_) => Some(true),
+                    _ => None,
+                });
+                if !take_marked && new_batch && next_is_wait_first == Some(false) && !queue.is_empty() && next_call[pos].map_or(false, |n| n.iter().eq(queue.iter())) {
                     take_marked = true;
                     taken.extend(queue.drain(..));
                 }
@@ -1263,13 +1359,39 @@ pub fn fragment(w: Weights) -> impl Strategy<Value = Vec<Op>> {
     ]
 }
 
+/// A quiet period: the receiver goes round its idle loop n times with a sender (on another thread) waiting to get
+/// in at the receiver's next buffer allocation, whenever that is. One case in twelve gets one (each firing costs a
+/// thread hand-over).
+pub fn quiet() -> impl Strategy<Value = Vec<Op>> {
+    (1usize..16, any::<bool>()).prop_map(|(n, first)| {
+        let mut v = Vec::new();
+        if first {
+            v.push(Op::ArmAllocSend);
+        }
+        v.extend([Op::ResolveBatch(Outcome::Ok), Op::Step]);
+        for i in 0..n {
+            if !first && i == n / 2 {
+                v.push(Op::ArmAllocSend);
+            }
+            v.push(Op::ResolveWait);
+            v.push(Op::Step);
+        }
+        v
+    })
+}
+
 pub fn case(w: Weights) -> impl Strategy<Value = Case> {
     (
         1u8..=w.max_cap,
         prop::collection::vec(fragment(w), 0..w.max_len / 2),
         prop_oneof![4 => Just(Drain::Ok), 1 => Just(Drain::Err), 2 => Just(Drain::Retry), 1 => Just(Drain::PanicFuture), 1 => Just(Drain::PanicClosure)],
+        prop_oneof![11 => Just(None), 1 => (any::<u32>(), quiet()).prop_map(Some)],
     )
-        .prop_map(move |(cap, frags, drain)| {
+        .prop_map(move |(cap, mut frags, drain, quiet)| {
+            if let Some((at, q)) = quiet {
+                let at = vcore::pick(at, frags.len() + 1);
+                frags.insert(at, q);
+            }
             let mut ops: Vec<Op> = frags.into_iter().flatten().collect();
             ops.truncate(w.max_len * 2);
             Case { cap, ops, drain }
@@ -1330,8 +1452,15 @@ pub enum Prop {
 /// counted as a class (their own check reports them), not reported here.
 pub fn check(case: &Case, which: Prop, cx: &mut Cx) -> vcore::Res {
     let trace = run(case);
+    if trace.alloc_blocked {
+        cx.class("dontcare:allocation-called-under-the-receiver-lock");
+        cx.dont_care();
+        return Ok(());
+    }
     let mut v = judge(&trace, &case.ops);
     let s = &v.stats;
+    cx.class_if(case.ops.iter().any(|o| matches!(o, Op::ArmAllocSend)), "allocation-hook-armed");
+    cx.class_if(trace.alloc_fired > 0, "send-inside-receiver-allocation");
     cx.class_if(case.ops.iter().any(|o| matches!(o, Op::SampleSend { .. })), "self-reported-metrics");
     cx.class_if(s.retries > 0, "retry");
     cx.class_if(s.max_chain >= 3, "retry-chain>=3");
